@@ -59,7 +59,14 @@ pub struct PRun {
   pub sim_ns: u64,
   pub trace: String,
   pub idle: bool,
+  /// virtual time at which the executor became idle in the quiescence phase
+  pub idle_at: Option<u64>,
   pub live_tasks_end: usize,
+  pub live_timers_end: usize,
+  pub pulls: Vec<u64>,
+  pub polls: Vec<u64>,
+  /// virtual time at the end of the script (before quiescence)
+  pub script_end_ns: u64,
 }
 
 enum Handle {
@@ -193,6 +200,7 @@ pub fn run_pipeline(case: &PCase) -> Result<PRun, String> {
       sample(&handle, &mut run, &w);
     }
   }
+  run.script_end_ns = w.now();
   // quiescence: no more inputs or cuts; the executor runs (same policy) and the
   // clock moves promptly until idle
   if run.panic.is_none() {
@@ -219,7 +227,12 @@ pub fn run_pipeline(case: &PCase) -> Result<PRun, String> {
       }
     }));
     match r {
-      Ok(idle) => run.idle = idle,
+      Ok(idle) => {
+        run.idle = idle;
+        if idle {
+          run.idle_at = Some(w.now());
+        }
+      }
       Err(p) => run.panic = Some(format!("`{}` then quiescence: {}", run.trace.trim(), panic_message(&*p))),
     }
     if run.panic.is_none() {
@@ -236,6 +249,9 @@ pub fn run_pipeline(case: &PCase) -> Result<PRun, String> {
   run.finalizers = counters.finalizers.load(SeqCst);
   run.sim_ns = w.now();
   run.live_tasks_end = w.live_tasks();
+  run.live_timers_end = w.live_timers();
+  run.pulls = counters.pulls.lock().unwrap().clone();
+  run.polls = counters.polls.lock().unwrap().clone();
   // tear down inside the context; a panic here must not escape
   let _ = catch_unwind(AssertUnwindSafe(|| {
     drop(handle);
